@@ -653,8 +653,8 @@ example (outer : Env Nat) (args : List (Option Nat)) (vs : List Nat)
   · intro n hn
     simp only [gE, Graph.nodes, List.mem_cons, List.mem_nil_iff, or_false] at hn
     rcases hn with rfl | rfl
-    · exact ⟨rfl, by decide, fun v => rfl⟩
-    · exact ⟨rfl, by decide, fun v => rfl⟩
+    · exact ⟨rfl, by decide, fun v => rfl, by decide⟩
+    · exact ⟨rfl, by decide, fun v => rfl, by decide⟩
   · intro n hn o ho
     simp only [gE, Graph.nodes, List.mem_cons, List.mem_nil_iff, or_false] at hn
     rcases hn with rfl | rfl
@@ -705,6 +705,83 @@ example (outer : Env Nat) (args : List (Option Nat)) (vs : List Nat)
           simp [infoE, lookupA, List.find?, h1, h2] at hx
     simp only [gE, Graph.nodes, List.mem_cons, List.mem_nil_iff, or_false] at hm
     rcases hxa with rfl | rfl <;> rcases hm with rfl | rfl <;> decide
+
+/-! ### reference attributes (function bodies) -/
+
+/-- `_get_int_attribute` on a reference attribute: the attribute is present, its value is not an int,
+the answer is `None` — never the operator's default. -/
+theorem intAttr_ref (n : Node) (k r : String) (dflt : Option Int)
+    (h : (n.attrs.find? (·.1 == k)).map (·.2) = some (Attr.ref r)) : intAttr n k dflt = none := by
+  unfold intAttr Node.attr
+  rw [h]
+
+/-- **Evaluators do not fire on a reference attribute they read** (`concat_from_sequence`:
+`new_axis`, `axis`; `split_to_sequence`: `axis`): with `new_axis=@r` the evaluator declines, so a
+function body is not specialised to the operator's default for every call site. -/
+theorem concat_from_sequence_declines_on_ref (st : St) (n : Node) (r : String)
+    (h : (n.attrs.find? (·.1 == "new_axis")).map (·.2) = some (Attr.ref r)) :
+    ∃ st', evConcatFromSequence st n = (EvRes.none, st') ∨ ∃ m, evConcatFromSequence st n = (EvRes.error m, st') := by
+  unfold evConcatFromSequence
+  split
+  · exact ⟨st, Or.inr ⟨_, rfl⟩⟩
+  · split
+    · split
+      · exact ⟨st, Or.inl rfl⟩
+      · simp only [intAttr_ref n "new_axis" r (some 0) h]
+        split
+        · exact ⟨st, Or.inl rfl⟩
+        · simp
+    · exact ⟨st, Or.inl rfl⟩
+
+def isRepl : PRes → Bool
+  | .repl _ _ => true
+  | _ => false
+
+/-- **Nodes with a reference attribute are left alone** (commit 1825327): for every option tuple and
+state, `process_node` keeps a node that carries an attribute reference after the input
+substitution — no partial evaluator and no generic folding can specialise a function body to one
+call site's (or the operator's default) attribute value. -/
+theorem reference_attribute_kept (ctx : Ctx) (st : St) (n : Node) (h : hasRefAttr n = true) :
+    ∃ n' st', processNode ctx st n = (.keep n', st') ∧ n'.attrs = n.attrs := by
+  have hattrs : (substInputs st n).1.attrs = n.attrs := by
+    unfold substInputs
+    cases n
+    rfl
+  have h' : hasRefAttr (substInputs st n).1 = true := by
+    unfold hasRefAttr
+    rw [hattrs]
+    exact h
+  unfold processNode
+  simp only [h', if_true]
+  exact ⟨_, _, rfl, hattrs⟩
+
+def tokRc : CInfo := { tok := "t0", dtype := 1, shape := [2, 2], ints := none, isZero := none }
+def tokRax : CInfo := { tok := "t1", dtype := 7, shape := [1], ints := some [0], isZero := some true }
+
+def ctxRef : Ctx :=
+  { inLimit := 8192, outLimit := 262144, shouldFold := none, imports := [("", 18)], isFunction := true, toks := [],
+    oracle := [("ReduceSum||18|t0&t1|keepdims=r:k", .single { tok := "f0", dtype := 1, shape := [2], ints := none, isZero := none })] }
+
+def stRef : St :=
+  { info := [("c", { dtype := some 1, shape := some [.known 2, .known 2], const := some tokRc }),
+             ("ax", { dtype := some 7, shape := some [.known 1], const := some tokRax })] }
+
+/-- `r0 = ReduceSum<keepdims=@k>(c, ax)` inside a function body -/
+def nRef : Node := .mk "ReduceSum" "" [some "c", some "ax"] ["r0"] [("keepdims", .ref "k")] []
+
+/-- Regression witness of C03-D2 (fixed by 1825327): the all-constant `ReduceSum<keepdims=@k>` — which
+the gate cascade alone would still fold, the oracle answering for `keepdims=None` — is kept by `process_node`. -/
+theorem reference_attribute_witness_kept :
+    isRepl (processNode ctxRef stRef nRef).1 = false ∧ isRepl (gateCascade ctxRef stRef nRef 18).1 = true := by
+  decide
+
+/-- Regression witness of C03-D3 (fixed by 9d7b9e7): below opset 13 the reference evaluator has no answer for
+Softmax / LogSoftmax / Hardmax, whatever the oracle table says; from opset 13 on the table is consulted. -/
+theorem softmax_family_not_evaluated_below_13 (ctx : Ctx) (st : St) (n : Node) (v : Nat)
+    (hd : n.domain = "") (hv : v < 13) (hop : n.op = "Softmax" ∨ n.op = "LogSoftmax" ∨ n.op = "Hardmax") :
+    oracleAnswer ctx st n v = some .fail := by
+  unfold oracleAnswer refEvaluatorMissing
+  rcases hop with h | h | h <;> simp [hd, hv, h]
 
 /-! ### a refuted clause (finding C03-D1) -/
 
